@@ -36,8 +36,47 @@ func refFace(c *sc.Case) *hbref.Face {
 
 // referenceClusters shapes a harfbuzz-level case with libharfbuzz and returns the cluster sequence.
 func referenceClusters(c *sc.Case) ([]int, bool) {
-	if c.API != sc.APIHarfbuzz || !c.InRange() {
+	shape, done, ok := referenceCall(c)
+	if !ok {
 		return nil, false
+	}
+	defer done()
+	out := shape()
+	if !out.OK {
+		return nil, false
+	}
+	cl := make([]int, len(out.Glyphs))
+	for i, g := range out.Glyphs {
+		cl[i] = int(g.Cluster)
+	}
+	return cl, true
+}
+
+// asHarfbuzzCall turns a shaping.Shape case into the harfbuzz-level call it makes (level 0, no
+// flags, global features, sideways shaped horizontally); harfbuzz-level cases are returned as is.
+func asHarfbuzzCall(c *sc.Case) (sc.Case, bool) {
+	h := *c
+	if c.API == sc.APIHarfbuzz {
+		return h, true
+	}
+	if !c.InRange() {
+		return h, false
+	}
+	h.API = sc.APIHarfbuzz
+	h.ClusterLevel, h.Flags, h.Invisible, h.NotFound, h.GuessProps, h.UpemScale, h.Ptem = 0, 0, 0, 0, false, false, 0
+	if h.Orient == 2 {
+		h.Dir -= 2
+	}
+	h.Orient = 0
+	return h, true
+}
+
+// referenceCall prepares the same call on libharfbuzz: same font bytes, text, run, direction,
+// script, language, features, cluster level, flags, glyph overrides, scale. shape may be called
+// several times; done releases what was allocated for the call.
+func referenceCall(c *sc.Case) (shape func() hbref.Output, done func(), ok bool) {
+	if c.API != sc.APIHarfbuzz || !c.InRange() {
+		return nil, nil, false
 	}
 	// values that are not representable as hb_codepoint_t the same way (negative runes) are given
 	// to the reference as U+FFFD: the cluster structure compared by the matcher does not depend
@@ -52,19 +91,20 @@ func referenceClusters(c *sc.Case) ([]int, bool) {
 		}
 	}
 	var f *hbref.Face
+	done = func() {}
 	if c.Synth != nil {
 		// generated font: built for this call only (not cached: the C side holds the bytes)
 		b, err := synthfont.Build(*c.Synth)
 		if err != nil {
-			return nil, false
+			return nil, nil, false
 		}
 		f = hbref.NewFace(b, 0)
 		if f == nil {
-			return nil, false
+			return nil, nil, false
 		}
-		defer f.Close()
+		done = f.Close
 	} else if f = refFace(c); f == nil {
-		return nil, false
+		return nil, nil, false
 	}
 	// flag bits: the first five are shared; the port numbers ProduceUnsafeToConcat 0x20 and
 	// ProduceSafeToInsertTatweel 0x40 where HarfBuzz has VERIFY 0x20, 0x40 and 0x80
@@ -89,29 +129,26 @@ func referenceClusters(c *sc.Case) ([]int, bool) {
 		hf := hbref.Feature{Tag: ft.Tag, Value: ft.Value, Start: 0, End: 0xFFFFFFFF}
 		if ft.Ranged {
 			if ft.Start < 0 || ft.End < 0 {
-				return nil, false
+				done()
+				return nil, nil, false
 			}
 			hf.Start, hf.End = uint32(ft.Start), uint32(ft.End)
 		}
 		in.Features = append(in.Features, hf)
 	}
-	if !c.UpemScale {
-		f.SetScale(int(c.Scale()), int(c.Scale()))
-	} else {
+	scale := int(c.Scale())
+	if c.UpemScale {
 		face, err := c.Face()
 		if err != nil {
-			return nil, false
+			done()
+			return nil, nil, false
 		}
-		f.SetScale(int(face.Upem()), int(face.Upem()))
+		scale = int(face.Upem())
 	}
-	f.SetPtem(c.Ptem)
-	out := f.Shape(in)
-	if !out.OK {
-		return nil, false
-	}
-	cl := make([]int, len(out.Glyphs))
-	for i, g := range out.Glyphs {
-		cl[i] = int(g.Cluster)
-	}
-	return cl, true
+	ptem := c.Ptem
+	return func() hbref.Output {
+		f.SetScale(scale, scale)
+		f.SetPtem(ptem)
+		return f.Shape(in)
+	}, done, true
 }
